@@ -830,7 +830,7 @@ func buildFuncNode(c *leafCore, nc NodeCfg, builderForm bool) flyt.Node {
 	execR := func(ctx context.Context, p flyt.Result) (flyt.Result, error) {
 		v, eres, err := c.exec(ctx, reg.ObserveResult(p))
 		if err != nil {
-			if c.s.att[c.id]%2 == 0 {
+			if (c.s.att[c.id]+c.id)%2 == 0 {
 				// a failed attempt may report its error both ways: the error return value is what counts
 				return flyt.NewErrorResult(err), err
 			}
